@@ -247,7 +247,7 @@ pub fn history_strategy() -> impl Strategy<Value = History> {
 }
 
 pub fn replay(case: &Value, _kf: &KnownFindings) -> Result<(), Failure> {
-    let h = History::from_json(case);
+    let h = super::cross::case_history(case);
     let (_, recs) = run_history(&h).map_err(|e| Failure::new("harness", h.json(), e))?;
     judge(&h, &recs).map(|_| ())
 }
